@@ -21,9 +21,9 @@ K = 1e4
 
 
 @st.composite
-def _case(draw, max_n):
+def _case(draw, max_n, decades=1.0):
     cvx = draw(zoo.convex3d(max_n=max_n))
-    pl = draw(zoo.placement(max_offset=10.0, scale_decades=1.0))
+    pl = draw(zoo.placement(max_offset=10.0, scale_decades=decades))
     n = 80
     return {"cvx": cvx, "place": pl, "perm": draw(zoo.noise(n)), "perm2": draw(zoo.noise(n)),
             "int_t": [draw(st.integers(-30, 30)) for _ in range(3)]}
@@ -142,6 +142,8 @@ def clauses():
                rule="see RULE", floors={"lattice": 0.08, "offset>=1": 0.2, "nontriangular": 0.3, "reordered": 0.5}),
         Clause("convex_measures_large", _case(60), _convex, quick=160, thorough=6000,
                rule="same with up to 60 vertices", floors={}),
+        Clause("convex_measures_extreme_scale", _case(20, 8.0), _convex, quick=400, thorough=8000,
+               rule="same with uniform scale 10^U(-8,8) (tolerances are scale-free)", floors={}),
     ]
 
 
